@@ -54,3 +54,9 @@ CONTRACTS['teachers_round'] = Contract(
     # declarative: the nearest integer, and on an exact half the one farther from zero (this determines the result uniquely)
     ensures=[('nearest-integer', "And(result() >= x - 0.5, result() <= x + 0.5)"),
              ('half-rounds-away-from-zero', "And(implies(result() - x == 0.5, x > 0), implies(x - result() == 0.5, x < 0))")])
+
+
+# how a solver counter-model maps back to the real function's arguments (engine/pyvc/solve.py:_model_inputs)
+for _k in ('threshold_absolute', 'binarize', 'invert', 'normalize'):
+    CONTRACTS[_k].inputs = [('W', 'W0', 'mat', 'n'), ('copy', 'copy', 'bool')] + ([('thr', 'thr', 'real')] if _k == 'threshold_absolute' else [])
+CONTRACTS['teachers_round'].inputs = [('x', 'x', 'real')]
